@@ -81,7 +81,7 @@ CLAIM = (
     "from four initial states (1-3 fixed dimensions) ONE array object is brought into several cells — by index lists that name a position twice "
     "(v[[1, 1, 2, 0]], [0, 0], [2, 0, 2], lists and arrays, on every axis; unsorted lists as controls), by assigning one object to two / three cells, "
     "v[i] = v[j], slice / list / set_data assignment of a list holding one object twice, from_data([a, b, a]), equal content in distinct objects, "
-    "v[0:n] = v[[..repeated..]] — and every sequence of up to 2 (thorough: 3) of flatten round trip, set_flattened, v[f] = values, += -= *= /=, add_fields, "
+    "v[0:n] = v[[..repeated..]] — and every sequence of up to 2 (thorough: 3; 2 after the index lists only thorough adds) of flatten round trip, set_flattened, v[f] = values, += -= *= /=, add_fields, "
     "remove_fields, copy, whole-cell replacement follows: cells whose array sits in one cell are exact, flatten is the concatenation over all cells "
     "counting a repeated array once per cell, the source of a slice and the source of a copy stay intact. Field-name dimension: field lists drawn from "
     "13 families of look-alike names (differing only in case / casefold, surrounding blanks, Unicode normalisation form, numeric spelling, prefixes of "
@@ -2889,8 +2889,10 @@ def ident_shard(item, seed=0, tier="quick"):
     counts = t.extra
     states = set()
     fields = ["field_0"] if ID_INITS[ii][1] == 1 else FIELDS[: ID_INITS[ii][1]]
+    # thorough: the sources of the quick tier get the larger depth, the additional index lists / spellings depth 2
+    depth = ID_DEPTH[tier] if src in ident_sources(ii, "quick") else ID_DEPTH["quick"]
     if run_ident(ii, src, [], seed, t, counts, states) is not None:
-        for ops in ident_sequences(fields, ID_DEPTH[tier]):
+        for ops in ident_sequences(fields, depth):
             run_ident(ii, src, ops, seed, t, counts, states)
             counts["identity_sequences"] += 1
     if si == 0:
@@ -3310,6 +3312,7 @@ def run(ctx):
         "index_lists_axis_of_3": take_lists(3, ctx.tier),
         "source_states": len(i_items),
         "operations_after_source": ID_DEPTH[ctx.tier],
+        "operations_after_sources_added_by_thorough": ID_DEPTH["quick"],
         "sequences": int(mi_.extra["identity_sequences"]),
     }
     # content of field names: look-alike names in every operation that addresses a field by name
